@@ -117,6 +117,24 @@ class Ctx:
         self.bad(rule, key, "%s: a path through %s skips it" % (what, fn.name), {"function": fn.name, "path": s.render_path(v.path)})
         return False
 
+    def established_at_exit(self, rule, key, fn, stmt_pts, edge_alts, what):
+        """On every path to a normal exit, one of the statements ran or one of the branch
+        outcomes (pattern, want) was taken — e.g. `x = NULL` ran or `x.ptr` was already false."""
+        if not stmt_pts and not edge_alts:
+            self.bad(rule, key, "%s: nothing to look for" % what)
+            return False
+        pts = set(stmt_pts)
+        mon = GateMonitor((), list(edge_alts) if edge_alts else None, None, (), est_elem=lambda pt, e: pt in pts, check_exit=True)
+        mon.label = what
+        s = Search(fn, mon)
+        v = s.run(False)
+        if v is None:
+            self.ok(rule, key, what + " on every path of %s (%d statement site(s), %d states)" % (fn.name, len(pts), s.states),
+                    sample={"function": fn.name, "sites": [fn.loc(p) for p in sorted(pts)][:4], "rule": what})
+            return True
+        self.bad(rule, key, "%s: a path through %s reaches the exit without it" % (what, fn.name), {"function": fn.name, "path": s.render_path(v.path)})
+        return False
+
     def before(self, rule, key, fn, use_pts, guard_pts, what):
         if not use_pts:
             self.bad(rule, key + ":no-use-site", "no use site found for: " + what)
